@@ -79,6 +79,9 @@ func scenario(run *mon.Run, t *testing.T, name string, o opts, body func(e *env)
 		srv.Resume()
 		c.Close()
 		srv.Close()
+		// helper calls started with a background context may still sit in a retry back-off; time stops when the
+		// bubble's function returns, so let them run out instead of mistaking a sleeper for a leak
+		time.Sleep(3 * time.Minute)
 	})
 	if dl != "" {
 		run.Violation("hang-or-leak", name+"|"+strings.Join(drv.RueidisFrames(stacks), ";"), map[string]any{"scenario": name, "synctest": dl, "rueidis_frames": drv.RueidisFrames(stacks), "stacks": drv.Tail(stacks, 12000)})
@@ -187,7 +190,7 @@ func TestC05(t *testing.T) {
 					err := <-done
 					run.Observe("manual_cancels", 1)
 					run.Case(fmt.Sprintf("%s|cancel|d=%v", e.name, d), true)
-					if !ret.Equal(at) || err == nil {
+					if ret.After(at) || err == nil { // (a connection-level timeout may legitimately end the call before the cancellation)
 						run.Violation("cancel-not-honoured", e.name+"|Do", map[string]any{"scenario": e.name, "cancelled_at": at.Sub(e.t0).String(), "returned_at": ret.Sub(e.t0).String(), "err": fmt.Sprint(err)})
 					}
 				})
@@ -228,7 +231,7 @@ func TestC05(t *testing.T) {
 					err := <-done
 					run.Observe("manual_cancels", 1)
 					run.Case(fmt.Sprintf("%s|cancel-blocking-multi|d=%v", e.name, d), true)
-					if !ret.Equal(at) || err == nil {
+					if ret.After(at) || err == nil { // (a connection-level timeout may legitimately end the call before the cancellation)
 						run.Violation("cancel-not-honoured", e.name+"|DoMulti-blocking", map[string]any{"scenario": e.name, "cancelled_at": at.Sub(e.t0).String(), "returned_at": ret.Sub(e.t0).String(), "err": fmt.Sprint(err)})
 					}
 				})
